@@ -137,8 +137,10 @@ def pair(draw, flavours=("cert", "cert", "cert", "srp", "srp_cert", "anon",
         # external PSK (TLS 1.3) next to a certificate the server can fall
         # back to; identities / secrets equal or not
         case["cred"] = draw(st.sampled_from(["rsa", "ecdsa"]))
-        case["psk"] = {"hash": draw(st.sampled_from(["sha256", "sha384"])),
-                       "c_hash": draw(st.sampled_from(["sha256", "sha256",
+        # (None: the documented two-element form, the hash is SHA-256)
+        case["psk"] = {"hash": draw(st.sampled_from(["sha256", "sha384",
+                                                     None])),
+                       "c_hash": draw(st.sampled_from(["sha256", None,
                                                        "sha384"])),
                        "same_secret": draw(st.sampled_from([True, True,
                                                             False])),
@@ -232,12 +234,18 @@ def build_opts(case):
         server["cred"] = case["cred"]
         ss.pskConfigs = [(bytearray(b"psk-id-1"), bytearray(b"\x07" * 32),
                           k["hash"])]
+        if k["hash"] is None:
+            ss.pskConfigs = [ss.pskConfigs[0][:2]]
         cs.psk_modes = list(k.get("c_modes", ["psk_dhe_ke", "psk_ke"]))
         ss.psk_modes = list(k.get("s_modes", ["psk_dhe_ke", "psk_ke"]))
         cs.pskConfigs = [(bytearray(b"psk-id-1" if k["same_id"]
                                     else b"psk-id-2"),
                           bytearray(b"\x07" * 32 if k["same_secret"]
                                     else b"\x08" * 32), k["c_hash"])]
+        if k["c_hash"] is None:
+            cs.pskConfigs = [cs.pskConfigs[0][:2]]
+        if k.get("no_cert"):
+            del server["cred"]
     if case.get("c_alpn") and fl == "cert":
         client["alpn"] = [bytearray(x.encode()) for x in case["c_alpn"]]
     if case.get("s_alpn"):
